@@ -15,6 +15,7 @@ func init() {
 		c.R.Expl = "Structural conditions of 'restart changes nothing': (W1) every store to a persistent field of a cached inode is followed, on every non-failing path, by WriteInode of that inode before control returns to a caller that does not itself write it through (dirty/clean summaries up to the handlers); (W2) the name cache is updated only on the success side of the directory write it mirrors, with the same name/number/offset; (W3) on-disk codecs are inverse and fit their slot; (W4) caches are dropped on abort; (W5) allocators mirror the bitmaps (C01.R3/R4, C05.F2)."
 		c.R.NotDec = "the comparison of two servers' observable state; a wrong value written consistently on both sides."
 		ruleW1(c, "C10.W1")
+		ruleBmapFlag(c, "C10.W11")
 		ruleW2(c, "C10.W2")
 		ruleW3(c, "C10.W3")
 		ruleA2(c, "C10.W4")
@@ -969,4 +970,86 @@ func (w *w1) bmapHelperCall(in ssa.Instruction) bool {
 func okStyle(fn *ssa.Function) bool {
 	v, _ := byFunc(okResult, FuncName(fn))
 	return v
+}
+
+// ruleBmapFlag: W1 lets the callers of bmap write the inode "iff it
+// allocated" - they believe bmap's second result.  For the direct blocks that
+// result is a flag set after the allocation: the constant true must reach it
+// only on the side where the pointer just stored is not null.  The other way
+// round the callers skip WriteInode exactly when a block was linked: the
+// cached inode has the pointer, the disk does not (and gets the bitmap bit at
+// commit) - after a restart the block is allocated and belongs to nobody.
+func ruleBmapFlag(c *Ctx, id string) {
+	V, P, R := c.V, c.P, c.R
+	R.Rule(id, "bmap reports what it did: a constant true reaches its 'allocated' result only on the not-null side of a test of a block pointer (a slot of Inode.blks or the allocator's answer)", 1)
+	bm := V.bmap
+	if bm == nil || bm.Signature.Results().Len() != 2 {
+		return
+	}
+	isPtr := func(v ssa.Value) bool {
+		v = stripConv(v)
+		switch x := v.(type) {
+		case *ssa.UnOp:
+			if x.Op == token.MUL {
+				if ia, ok := x.X.(*ssa.IndexAddr); ok {
+					if nm, fl, _ := fieldLoad(ia.X); nm == V.Inode && fl == "blks" {
+						return true
+					}
+				}
+			}
+		case *ssa.Call:
+			return staticCallee(x) == V.AllocBlock
+		}
+		return false
+	}
+	notNull := func(Subst) func(Cond) (bool, bool) {
+		return func(cd Cond) (bool, bool) {
+			if cd.Op != token.EQL && cd.Op != token.NEQ {
+				return false, false
+			}
+			for _, pr := range [][2]ssa.Value{{cd.X, cd.Y}, {cd.Y, cd.X}} {
+				if pr[0] == nil || pr[1] == nil {
+					continue
+				}
+				if k, ok := constInt(pr[1]); ok && k == 0 && isPtr(pr[0]) {
+					return true, cd.Op == token.NEQ
+				}
+			}
+			return false, false
+		}
+	}
+	n := 0
+	seen := map[ssa.Value]bool{}
+	var walk func(v ssa.Value, from, to *ssa.BasicBlock, d int)
+	walk = func(v ssa.Value, from, to *ssa.BasicBlock, d int) {
+		if d > 8 {
+			return
+		}
+		if ph, isP := v.(*ssa.Phi); isP {
+			if seen[ph] {
+				return
+			}
+			seen[ph] = true
+			for i, e := range ph.Edges {
+				walk(e, ph.Block().Preds[i], ph.Block(), d+1)
+			}
+			return
+		}
+		bv, isb := constBool(v)
+		if !isb || !bv || from == nil {
+			return // computed (root != ip.blks[...]) or false
+		}
+		n++
+		R.Analysed[FuncName(bm)] = true
+		g := edgeGuardedX(bm, from, to, notNull, nil, 0)
+		R.Check(g, id, fmt.Sprintf("inode.bmap|'allocated' set#%d only where a pointer was linked", n), P.Pos(from.Instrs[len(from.Instrs)-1].Pos()), "the constant true reaches the result on the not-null side of a test of the pointer", "edge guarded by pointer != 0", "bmap says 'allocated' where no block was linked and 'nothing new' where one was: its callers skip WriteInode exactly when the inode changed - the pointer never reaches the disk while the bitmap bit does; after a restart the block is allocated and unreachable, and the bytes written to it are gone")
+	}
+	for _, b := range bm.Blocks {
+		if r, ok := b.Instrs[len(b.Instrs)-1].(*ssa.Return); ok && len(r.Results) == 2 {
+			walk(r.Results[1], nil, nil, 0)
+		}
+	}
+	if n == 0 {
+		R.Pass(id, "inode.bmap|'allocated' is computed", P.Pos(bm.Pos()), "no constant true reaches the result: it is computed from the pointers", "comparison of pointers")
+	}
 }
